@@ -404,7 +404,7 @@ type updMut struct {
 	F           func(sc *mScene, u *updSpec)
 }
 
-// take moves amt from M's balance into thin air (the caller puts it somewhere else).
+// mBal / vBal: M's resp. the victim's balance in the update under construction.
 func (sc *mScene) mBal(u *updSpec) *big.Int { return u.St.Balances[0][1-sc.vIdx] }
 func (sc *mScene) vBal(u *updSpec) *big.Int { return u.St.Balances[0][sc.vIdx] }
 
